@@ -11,8 +11,9 @@
 (*   ctor   in-lining of super-constructor calls, one action per class in declaration order      *)
 (*   iface  interface resolution                                                                 *)
 (*                                                                                               *)
-(* Dedupe = TRUE is the design with order-preserving de-duplication when ancestor lists and       *)
-(* in-lined constructor statements are merged (the repaired design, notes/fixes/C05-*.patch);    *)
+(* Dedupe = TRUE is the design with order-preserving de-duplication when the descendants are      *)
+(* linked into the intermediate classes and when in-lined constructor statements are merged, and *)
+(* with repeated assignments refused (the repaired design, notes/fixes/C05-*.patch);             *)
 (* Dedupe = FALSE is the design of the pinned tree.  The properties at the bottom are the         *)
 (* clauses of Hierarchy.tla evaluated on the machine's final state.                              *)
 EXTENDS Hierarchy
@@ -37,7 +38,7 @@ Empty(n) == [c \in 1..n |-> <<>>]
 RECURSIVE Uniq(_)
 Uniq(s) == IF s = <<>> THEN <<>>
            ELSE LET r == Uniq(SubSeq(s, 1, Len(s) - 1))
-                IN  IF s[Len(s)] \in Range(r) THEN r ELSE Append(r, s[Len(s)])
+                IN  IF s[Len(s)] \in Elems(r) THEN r ELSE Append(r, s[Len(s)])
 Merge(s) == IF Dedupe THEN Uniq(s) ELSE s
 
 RECURSIVE Flatten(_)
@@ -94,14 +95,14 @@ SortDone ==
 
 ---------------------------------------------------------------------------------
 (* anc: ontology *)
-OrderOf == [c \in 1..h.n |-> IF c \in Range(sorted) THEN Pos(sorted, c) ELSE 0]
+OrderOf == [c \in 1..h.n |-> IF c \in Elems(sorted) THEN Pos(sorted, c) ELSE 0]
 
 AccumulateAncestors ==
     /\ pc = "anc" /\ idx <= Len(sorted)
     /\ LET c == sorted[idx]
            ps == SortBy(Parents(h, c), OrderOf)
            acc == Flatten([k \in DOMAIN ps |-> Append(oanc[ps[k]], ps[k])])
-       IN  oanc' = [oanc EXCEPT ![c] = Merge(acc)]
+       IN  oanc' = [oanc EXCEPT ![c] = acc]   \* repeats along several paths are kept here (pinned test_complex_graph)
     /\ idx' = idx + 1
     /\ UNCHANGED <<h, rank, pc, unmarked, perm, temp, stack, sorted, cycle, odesc, anc, desc, wmtR, sinv, sprop, smeth, inl, iface>>
 
@@ -117,11 +118,11 @@ InvertAncestors ==
     /\ pc' = "link"
     /\ UNCHANGED <<h, rank, unmarked, perm, temp, stack, sorted, cycle, idx, oanc, anc, desc, wmtR, sinv, sprop, smeth, inl, iface>>
 
-\* descendants copied; ancestors: for t in declaration order, for d in descendants(t): ancestors[d].append(t)
+\* descendants copied (the repaired design skips repeats here); ancestors: for t in declaration order, for d in descendants(t): ancestors[d].append(t)
 Link ==
     /\ pc = "link"
-    /\ desc' = odesc
-    /\ anc' = [c \in 1..h.n |-> InvertOf(odesc, [k \in 1..h.n |-> k], c)]
+    /\ LET d2 == [c \in 1..h.n |-> Merge(odesc[c])]
+       IN  desc' = d2 /\ anc' = [c \in 1..h.n |-> InvertOf(d2, [k \in 1..h.n |-> k], c)]
     /\ pc' = "ser" /\ idx' = 1
     /\ UNCHANGED <<h, rank, unmarked, perm, temp, stack, sorted, cycle, oanc, odesc, wmtR, sinv, sprop, smeth, inl, iface>>
 
@@ -173,7 +174,7 @@ StackMethods ==
            inh == Flatten([k \in DOMAIN Bases(c) |-> smeth[Bases(c)[k]]])
            names == [k \in DOMAIN inh |-> inh[k].name]
        IN  IF ~IsClass(h, c) THEN UNCHANGED <<smeth, pc>> /\ idx' = idx + 1
-           ELSE IF ~NoDup(names) \/ (Range(names) \cap Range(h.methods[c])) # {}
+           ELSE IF ~NoDup(names) \/ (Elems(names) \cap Elems(h.methods[c])) # {}
                 THEN pc' = "rejected" /\ UNCHANGED <<smeth, idx>>
                 ELSE smeth' = [smeth EXCEPT ![c] = inh \o Own(c, h.methods[c])] /\ idx' = idx + 1 /\ UNCHANGED pc
     /\ UNCHANGED <<h, rank, unmarked, perm, temp, stack, sorted, cycle, oanc, odesc, anc, desc, wmtR, sinv, sprop, inl, iface>>
@@ -247,7 +248,7 @@ DoneRepeatsExplained ==
 CycleIffCyclic == (pc # "sort") => (cycle <=> ~Acyclic(h))
 SortedIsTopological == (pc \notin {"sort", "rejected"}) => Topological(h, [topo |-> sorted])
 \* marks are disjoint, the DFS stack is a path of the hierarchy
-MarksDisjoint == perm \cap temp = {} /\ Range(sorted) = perm
+MarksDisjoint == perm \cap temp = {} /\ Elems(sorted) = perm
 StackIsPath == \A k \in 1..(Len(stack) - 1) : stack[k + 1].c \in Parents(h, stack[k].c)
 \* rejection happens exactly for the documented reasons: a cycle, inconsistent model-type settings, or a
 \* method reaching a class along two parents / being overridden (and, in the repaired design, a constructor
